@@ -450,8 +450,11 @@ def gen_op(rng, st):
         # from then on the suffix preference applies to those files
         free = [x for x in ('usr', 'dat', 'txt', 'bin', 'ict', 'kv', 'bc', 'emis', 'avrg', 'nc4')
                 if x not in st.named]
-        if free and rng.random() < 0.4:
-            name = rng.choice(free)
+        if free and rng.random() < 0.5:
+            # prefer a suffix some pool file actually carries
+            present = [x for x in free
+                       if any(f['name'].lower().endswith('.' + x) for f in st.files.values())]
+            name = rng.choice(present if present and rng.random() < 0.8 else free)
             st.named.add(name)
             kind = rng.choice(['magic', 'suffix', 'raising'])
         op = {'op': 'register', 'reg': {'kind': kind, 'name': name,
